@@ -130,6 +130,11 @@ def special_scalars(n, full=True):
                 if full else {32, 64, nb - 1, nb, nb + 1, nl8, nl8 + 8, 1000})
     for e in es:
         out += [((1 << e) - 1, "2^%d-1" % e), (1 << e, "2^%d" % e), ((1 << e) + 1, "2^%d+1" % e)]
+    # scalars just below a 64-bit word boundary, 0..7 words longer than the order: adding a blinding multiple of the order
+    # (k + R*n) must carry into one more word
+    words = (nb + 63) // 64
+    for m in range(words, words + 8):
+        out += [((1 << (64 * m)) - 1, "2^(64w)-1"), ((1 << (64 * m)) - 1 - (n >> 3), "2^(64w)-1-n/8"), ((1 << (64 * m)) - (1 << 40) + 12345, "2^(64w)-2^40+c")]
     return out
 
 
